@@ -24,7 +24,9 @@ META = dict(
                "ran, any later save / ack / hook event of that message. The "
                "statement's A in 1..4, P in 0..4 is proved for all A > 0 and all P.",
     rule="case = receiver scenario (A, P, N, wait_tasks_timeout, stop instant, messages with arrival / kind / duration / outcome / "
-         "hook and result-backend failures incl. an outage over consecutive messages / acknowledgements that take time); "
+         "hook and result-backend failures incl. an outage over consecutive messages / acknowledgements that take time; the worker "
+         "configured directly, through the real command line (with further worker options such as the sync-pool size mixed in) or "
+         "through the real run_receiver_task); "
          "non-trivial iff finite A, backlog >= A+P+3 arriving within a burst shorter than the tasks (the worker saturates); "
          "distinct by canonical scenario",
     trusted_base=["model: coq/theories/RecvLTS.v (hand-written LTS of prefetcher / runner / look-ahead / hand-over queue)",
@@ -38,7 +40,7 @@ PROF_MIX = dict(limited_only=True, stop_p=.3, n_p=.25)
 
 
 PROC_TAGS = ("cb.start", "cb.end", "hook.pre", "hook.post", "hook.post_save", "hook.on_error", "hook.aw", "hook.aw.end", "body.in",
-             "body.cleanup", "body.out", "save", "ack", "ack.end", "bg.new", "bg.done")
+             "body.cleanup", "body.out", "save", "save.end", "ack", "ack.end", "bg.new", "bg.done")
 
 
 def oracle(sc, obs):
